@@ -90,8 +90,9 @@ def exec_job(job):
             rec["zero_requested"] = int(job["alpha"] == 0)
         elif mask:
             out = f(Rarg, np.array(job["B"], dtype=float), job["maxswap"], seed=r)
-            eff = events[-1]["eff"] if events else 0
-            eff = sum(e["acc"] for e in events)
+            # the routine does not return its swap count; counting accepted hook events instead would
+            # make the verdict depend on the hooks being complete (a rewrite may drop one): unknown
+            eff = -1
         elif latt:
             D = np.array(job["D"], dtype=float) if job.get("D") else None
             out, Rrp, ind_rp, eff = f(Rarg, itr, D=D, seed=r)
